@@ -18,9 +18,14 @@ def run_dot(text):
 
 def canon_rows(label):
     # use_labels: which of several prov:label values is shown follows Python's set order: keep the subtitle only
-    cut = label.find('<br /><font color="#333333" point-size="10">')
+    # (and when that value happens to equal the identifier, no subtitle is drawn at all): the canonical form of an element
+    # label is the identifier text it carries
+    mark = '<br /><font color="#333333" point-size="10">'
+    cut = label.find(mark)
     if cut >= 0 and not label.startswith("<TABLE"):
-        return "<first prov:label>" + label[cut:]
+        sub = label[cut + len(mark):]
+        import html
+        return html.unescape(sub[:-len("</font>")] if sub.endswith("</font>") else sub)
     return _canon_rows(label)
 
 
